@@ -7,6 +7,7 @@
     interleaving, stale loads, relaxed RMWs continuing release sequences, extra synchronisation. *)
 From Coq Require Import List Bool Arith.
 From TV Require Import Layout SrcFacts Conc ConcProofs ConcX ConcXProofs Mech MechProofs Extracted.
+From TV Require Import SchedCases SchedProofs.
 Import ListNotations.
 
 (** For every enabled schedule of every number of threads, under the orderings the source uses: no payload
@@ -60,6 +61,14 @@ Theorem C02_orderings_are_necessary :
   raced_after (mkCfg true false true) [LClone 0; LRead 0; LSend 0 1; LRead 0; LDrop 0; LDrop 1; LAcq 1 3; LDestroy 1] = true.
 Proof. split; [exact dec_relaxed_refuted|exact acq_missing_refuted]. Qed.
 
+(** The schedule stream (tools/propdefs.py, harness/src/sched.rs) drives real threads of the crate through label
+    streams filtered by the machine and compares every step.  Whatever the generator produces, what the machine accepts
+    is one of the executions the theorem above is about: the final state of every case of the stream is safe. *)
+Theorem C02_every_schedule_of_the_stream_is_covered :
+  forall fuel ls, bad (fst (run_labels Extracted.count_progs fuel xinit ls)) = false.
+Proof. exact sched_stream_is_covered. Qed.
+
+
 Check C02_one_destroyer_after_all_accesses.
 Print Assumptions C02_one_destroyer_after_all_accesses.
 Print Assumptions C02_closed_world.
@@ -67,3 +76,4 @@ Print Assumptions C02_every_kind_funnels_through_arc.
 Print Assumptions C02_orderings_are_necessary.
 Print Assumptions C02_drop_protocol_as_written.
 Print Assumptions C02_protocol_as_written_is_safe.
+Print Assumptions C02_every_schedule_of_the_stream_is_covered.
